@@ -48,6 +48,8 @@ def gen(t, orders):
         if len(set(o[:3])) == 3:
             a('w_perm_' + o, '%s& r, const %s& v' % (V, V), '%s e(%s); e.setXYZVector(v); r = e.toXYZVector();' % (Eu, P_), o=o, k='perm')
             a('w_perm2_' + o, '%s& r, const %s& v' % (V, V), '%s e(v, %s, %s::XYZLayout); r = e.toXYZVector();' % (Eu, P_, Eu), o=o, k='perm')
+            a('w_perm4_' + o, '%s& r, const %s& v' % (V, V), '%s e(v.x, v.y, v.z, %s, %s::XYZLayout); r = e.toXYZVector();' % (Eu, P_, Eu), o=o, k='perm')
+            a('w_perm5_' + o, '%s& r, const %s& v' % (V, V), '%s e(v.x, v.y, v.z, %s, %s::IJKLayout); r = e;' % (Eu, P_, Eu), o=o, k='perm')
             a('w_perm3_' + o, '%s& r, const %s& v' % (V, V), '%s e(v, %s, %s::IJKLayout); %s w = e.toXYZVector(); %s f(%s); f.setXYZVector(w); r = f;' % (Eu, P_, Eu, V, Eu, P_), o=o, k='perm')
     a('w_seteuler', '%s& m, const %s& a' % (M4, V), 'm.setEulerAngles(a);', k='seteuler')
     # extractEulerXYZ / extractEulerZYX / extractEuler against their builders, rows scaled by positive factors s
@@ -373,10 +375,10 @@ def main(rep, ws, tier):
             if len(set(o[:3])) == 3:
                 def perm_():
                     v = [agg.slot_in('a1', i, t) for i in range(3)]
-                    for nm in ('w_perm_', 'w_perm2_', 'w_perm3_'):
+                    for nm in ('w_perm_', 'w_perm2_', 'w_perm3_', 'w_perm4_', 'w_perm5_'):
                         r = outs(S_(nm + o), 3)
                         if not all(a_ is b_ for a_, b_ in zip(r, v)):
-                            return ('%s round trip gives %s' % ({'w_perm_': 'setXYZVector->toXYZVector', 'w_perm2_': 'XYZLayout constructor->toXYZVector', 'w_perm3_': 'toXYZVector->setXYZVector'}[nm], [T.show(x, 2) for x in r]), None, fn_where(S_(nm + o).fn))
+                            return ('%s round trip gives %s' % ({'w_perm_': 'setXYZVector->toXYZVector', 'w_perm2_': 'XYZLayout constructor->toXYZVector', 'w_perm3_': 'toXYZVector->setXYZVector', 'w_perm4_': 'scalar XYZLayout constructor->toXYZVector', 'w_perm5_': 'scalar IJKLayout constructor->slots'}[nm], [T.show(x, 2) for x in r]), None, fn_where(S_(nm + o).fn))
                     return (None, 'setXYZVector, toXYZVector and the XYZ-layout constructor are mutually inverse permutations', fn_where(S_('w_perm_' + o).fn))
                 ob('xyz permutation', 'R11.perm', perm_)
             if True:
